@@ -263,12 +263,6 @@ theorem strided_index_translated (w F : Nat) (c sizes : List Nat) (hN : sizes.le
 
 /-! ### portable Morton index (`morton::calculate_index`, both preprocessor variants translate to the same term) -/
 
-theorem iterN_succ' {α : Type} (step : α → α) : ∀ d a, iterN step (d+1) a = step (iterN step d a) := by
-  intro d
-  induction d with
-  | zero => intro a; rfl
-  | succ d ih => intro a; rw [iterN, ih (step a)]; rfl
-
 def mStepI (N i : Nat) (c : List Nat) (s : Nat × Nat) : Nat × Nat :=
   ((s.1 ||| ((c.getD s.2 0 &&& (1 <<< i)) <<< (i * (N - 1) + s.2)) % 2^64) % 2^64, s.2 + 1)
 
